@@ -14,3 +14,65 @@ Definition check (c : case) : Z :=
       | _, _ => 1
       end
   end.
+
+(* ---- document level: the writer's element structure and the loader, on real SKRs ---- *)
+From KV Require Import Model.Xml Model.SkrDoc Checks.SignCheck.
+
+Fixpoint val_eqb (a b : val) {struct a} : bool :=
+  match a, b with
+  | VStr x, VStr y => text_eqb x y
+  | VNode d1, VNode d2 =>
+      (fix go (l1 l2 : list (text * val)) : bool :=
+         match l1, l2 with
+         | [], [] => true
+         | (k1, v1) :: t1, (k2, v2) :: t2 => text_eqb k1 k2 && val_eqb v1 v2 && go t1 t2
+         | _, _ => false
+         end) d1 d2
+  | VAttrs a1 v1, VAttrs a2 v2 =>
+      (fix goa (l1 l2 : list (text * text)) : bool :=
+         match l1, l2 with
+         | [], [] => true
+         | (k1, x1) :: t1, (k2, x2) :: t2 => text_eqb k1 k2 && text_eqb x1 x2 && goa t1 t2
+         | _, _ => false
+         end) a1 a2 && val_eqb v1 v2
+  | VList l1, VList l2 =>
+      (fix gol (x y : list val) : bool :=
+         match x, y with
+         | [], [] => true
+         | v1 :: t1, v2 :: t2 => val_eqb v1 v2 && gol t1 t2
+         | _, _ => false
+         end) l1 l2
+  | _, _ => false
+  end.
+Fixpoint dict_eqb (a b : list (text * val)) : bool :=
+  match a, b with
+  | [], [] => true
+  | (k1, v1) :: t1, (k2, v2) :: t2 => text_eqb k1 k2 && val_eqb v1 v2 && dict_eqb t1 t2
+  | _, _ => false
+  end.
+
+Definition policy_eqb (a b : SigPolicy) : bool :=
+  (sp_publish_safety a =? sp_publish_safety b) && (sp_retire_safety a =? sp_retire_safety b) && (sp_max_validity a =? sp_max_validity b) &&
+  (sp_min_validity a =? sp_min_validity b) && (sp_max_overlap a =? sp_max_overlap b) && (sp_min_overlap a =? sp_min_overlap b) &&
+  (Nat.eqb (length (sp_algs a)) (length (sp_algs b))) &&
+  forallb (fun x => existsb (fun y => match x, y with APRsa a1 b1 e1, APRsa a2 b2 e2 => (a1 =? a2) && (b1 =? b2) && (e1 =? e2) | _, _ => false end) (sp_algs b)) (sp_algs a).
+Definition response_same (a b : Response) : bool :=
+  text_eqb (rs_id a) (rs_id b) && (rs_serial a =? rs_serial b) && text_eqb (rs_domain a) (rs_domain b) &&
+  policy_eqb (rs_ksk a) (rs_ksk b) && policy_eqb (rs_zsk a) (rs_zsk b) && bundles_same (rs_bundles a) (rs_bundles b).
+
+(* r: the response handed to skr_to_xml (keys of each bundle in the order the writer iterates them);
+   doc: what the real reader makes of the real writer's text; loaded: what the real loader returns for that text *)
+Definition doc_case : Type := (Response * res (list (text * val)) * res Response)%type.
+Definition check_doc (c : doc_case) : Z :=
+  let '(r, doc, loaded) := c in
+  match skr_val r, doc with
+  | OK d, OK d' =>
+      if negb (dict_eqb d d') then 1 else
+      match response_of_val (fun _ => []) d', loaded with
+      | OK a, OK b => if response_same a b then 0 else 2
+      | Raise _, Raise _ => 0
+      | _, _ => 3
+      end
+  | Raise x, Raise y => if x =? y then 0 else 4
+  | _, _ => 5
+  end.
